@@ -38,6 +38,8 @@ fn write_project(dir: &Path, files: &[PFile]) {
         }
         std::fs::write(&p, &f.src).expect("write project file");
     }
+    // a data file every project has: its base64 differs between the two alphabets
+    std::fs::write(dir.join("key.bin"), [0xfbu8, 0xff, 0xfe, 0x3e, 0x3f, 0xfa]).expect("write data file");
 }
 
 fn artifact_of(dir: &Path, f: &PFile) -> Option<Vec<u8>> {
@@ -146,6 +148,10 @@ impl C16 {
                                 fields.push(format!("m{} = i{}.m{{k = 2}}", j, j));
                             }
                         }
+                    }
+                    if t.chance(1, 3) {
+                        // the same data file, decoded by whichever importer this file asks for
+                        fields.push(format!("key = include {} \"{}\"", if t.chance(1, 2) { "b64" } else { "b64urlsafe" }, rel_import(&rel, "key.bin")));
                     }
                     s.push_str(&format!("let v = {};\n", v));
                     s.push_str(&format!("out json {{{}}};\n", fields.join(", ")));
